@@ -11,7 +11,7 @@ from mc.common import HarnessError, Stats, pmap, safe, scratch_dir, rm_scratch, 
 PROPERTY = 'C09'
 LEVEL = 'model_checking'
 RULE = ('(i) the real ranking task driven through a virtual pool that implements the pathos contract (dill-shipped function, chunking rule, per-worker copies of all process-local '
-        'state, results by input position); EVERY assignment of chunks to W in {1,2,3} interchangeable workers over two consecutive batches is executed (restricted-growth schedules) '
+        'state, results by input position, unordered API in an explored completion order, result pending for 0..3 polls); EVERY assignment of chunks to W in {1,2,3} interchangeable workers over two consecutive batches is executed (restricted-growth schedules) '
         'for a target-only and (deviation-bounded) a pairwise configuration; oracle: pairwise_ranks.tsv and per-batch triplet multisets equal those of the sequential schedule. '
         '(ii) the real CLI with the real pathos pool in fresh interpreters over the complete grid PYTHONHASHSEED x --num_threads on configurations in which a Python set decides '
         'a column order (feature focus, multi-value expansion, transformers, sub-features + noise controls), compared as sets of (A,B,score) rows. '
@@ -58,12 +58,21 @@ def observe(obs):
     return {'pairwise': rows, 'batch_triplets': bt, 'exit': obs['exit']}
 
 
-def run_schedule(cfg, W, sched, completion='fifo'):
+def run_schedule(cfg, W, sched, completion='fifo', pending=0):
+    import types
+    from outrank import core_ranking as cr
     c = CONFIGS[cfg]
-    pool = vpool.VirtualPool(W, sched, completion)
+    pool = vpool.VirtualPool(W, sched, completion, pending)
     over = dict(c['over'])
     over['include_cardinality_in_feature_names'] = 'False'
-    obs = pipeline.run_task(data_text(16, c['cols']), over, pool=pool)
+    old_time = cr.time
+    if pending:
+        # the result is reported "not ready" for a few polls; the 4-second sleep between polls is skipped (time is a seam)
+        cr.time = types.SimpleNamespace(sleep=lambda s_: None)
+    try:
+        obs = pipeline.run_task(data_text(16, c['cols']), over, pool=pool)
+    finally:
+        cr.time = old_time
     return observe(obs), pool.k, pool.log
 
 
@@ -89,7 +98,11 @@ def _sched_job(job):
     cfg, W, scheds, base = job
     st = Stats()
     for sched in scheds:
-        ok, res = safe(run_schedule, cfg, W, sched)
+        completion, pending = 'fifo', 0
+        if sched and isinstance(sched[0], str):
+            # environment deviations other than the chunk assignment: completion order of the unordered API, polls that find the result pending
+            completion, pending, sched = sched[0], sched[1], tuple(sched[2])
+        ok, res = safe(run_schedule, cfg, W, sched, completion, pending)
         st.count('evaluations')
         st.count('traces_validated')
         if not ok:
@@ -98,7 +111,7 @@ def _sched_job(job):
         ob, k, log = res
         st.count('transitions', k)
         st.count('states', k)
-        if len(set(sched)) >= 2:
+        if len(set(sched)) >= 2 or pending or completion != 'fifo':
             st.count('nontrivial')
         st.see('outcomes_' + cfg, json.dumps(ob['pairwise']))
         if ob != base:
@@ -107,8 +120,8 @@ def _sched_job(job):
             if ob['pairwise'] and base['pairwise']:
                 d = [(x, y) for x, y in zip(ob['pairwise'], base['pairwise']) if x != y][:2]
                 diff = f' e.g. {d}'
-            st.violation({'kind': 'schedule', 'config': cfg, 'W': W, 'schedule': list(sched)},
-                         f'{cfg}: {what} under schedule {list(sched)} (W={W}) differ from the sequential schedule{diff}', {'kind': 'schedule_dependent', 'config': cfg})
+            st.violation({'kind': 'schedule', 'config': cfg, 'W': W, 'schedule': [completion, pending, list(sched)] if (pending or completion != 'fifo') else list(sched)},
+                         f'{cfg}: {what} (completion order {completion}, {pending} pending polls) under schedule {list(sched)} (W={W}) differ from the sequential schedule{diff}', {'kind': 'schedule_dependent', 'config': cfg})
     return st
 
 
@@ -182,6 +195,9 @@ def run(ctx):
                 bound = 3 if ctx.thorough else 2
                 scheds = list(bounded_schedules(k, W, bound))
                 mode = f'deviations<={bound}'
+            if W >= 2:
+                alt = (0, 1) * (k // 2 + 1)
+                scheds += [('lifo', 0, alt[:k]), ('rotate', 0, alt[:k]), ('fifo', 1, ()), ('fifo', 3, alt[:k]), ('lifo', 2, ())]
             plan.append((cfg, W, k, len(scheds), mode))
             jobs += [(cfg, W, scheds[i::16], base) for i in range(16) if scheds[i::16]]
     for cfg in CONFIGS:
@@ -263,7 +279,11 @@ def eval_case(case):
             over = dict(c['over'])
             over['include_cardinality_in_feature_names'] = 'False'
             base = observe(pipeline.run_task(data_text(16, c['cols']), over))
-        ob, _, _ = run_schedule(case['config'], case['W'], case['schedule'])
+        sc = case['schedule']
+        if sc and isinstance(sc[0], str):
+            ob, _, _ = run_schedule(case['config'], case['W'], tuple(sc[2]), sc[0], sc[1])
+        else:
+            ob, _, _ = run_schedule(case['config'], case['W'], sc)
         return [] if ob == base else [f'schedule {case["schedule"]} gives a result different from the sequential schedule']
     root = scratch_dir('c09r')
     try:
